@@ -9,7 +9,8 @@ Mutable Python objects become arena entries (`nodes`, `groups` indexed by creati
 `generate_new_uuid()` becomes the counter `next` (identifiers `~n`); identifiers given in the
 sheet (`_nodeId`) are kept verbatim.  Not modelled (parameters, see DESIGN §0/§3): the content
 of actions (an opaque text per row, produced by the real `_get_row_action(...).render()`),
-UI positions, `insert_as_block` (needs the content index), group/flow uuid assignment (C06).
+UI positions, group/flow uuid assignment (C06).  `insert_as_block` is an event carrying the
+events of the nested parser that instantiates the template (`ContentIndexParser.get_node_group`).
 In library mode a CRITICAL log record does not stop the real parser; the model stops at the
 first one (`Err`): the tie compares outputs only when the real run logged nothing ≥ ERROR.
 Core Lean only.
@@ -590,7 +591,7 @@ def parseRow (r0 : Row) : M Unit := do
         let i ← entryNode (← fuelOf) g
         addRowEdge e (.node (← getNode i).uid)
   else if r.type = "no_op".toList then parseNoop r.edges r.rowId
-  else if r.type = "insert_as_block".toList then fail (.unsupported "insert_as_block")
+  else if r.type = "insert_as_block".toList then fail (.unsupported "insert_as_block row outside an insert event")
   else do
     if ¬ r.actionOk then fail (.critical "RapidProActionError")
     let nodeName := if r.nodeUuid.isEmpty then r.nodeName else r.nodeUuid
@@ -628,15 +629,17 @@ def parseRow (r0 : Row) : M Unit := do
       appendGroup g r.rowId
       modify fun s => { s with names := (nodeName, i) :: s.names }
 
-/-- events of the parser (Sugar.Ev), with the begin row's edges for `open` -/
+/-- events of the parser (Sugar.Ev), with the begin row's edges for `open`; an `insert_as_block`
+row carries the events of the nested parser that instantiates the template -/
 inductive Event where
   | row (r : Row)
   | openGroup (edges : List Edge) (starting : Bool)   -- push a block; begin row read like a no_op
   | closeGroup (rowId : Str)                          -- pop it, append under the begin row's id
+  | insert (r : Row) (body : List Event)              -- `_parse_insert_as_block_row`
   deriving Repr
 
-def step (ev : Event) : M Unit := do
-  match ev with
+mutual
+def step : Event → M Unit
   | .row r => parseRow r
   | .openGroup edges starting => do
     let b ← addGrp (.block [])
@@ -649,6 +652,24 @@ def step (ev : Event) : M Unit := do
       set { s with stack := rest }
       appendGroup b rowId
     | _ => fail (.exc "pop from root")
+  | .insert r body => do
+    -- `get_node_group`: a nested FlowParser (its own stack, row ids and node names) over the
+    -- same objects; `parse_as_block` returns its root group
+    let s ← get
+    let b ← addGrp (.block [])
+    modify fun s' => { s' with stack := [b], rowIds := [], names := [] }
+    steps body
+    let s2 ← get
+    if s2.stack.length ≠ 1 then fail (.critical "Unexpected end of flow.")
+    modify fun s' => { s' with stack := s.stack, rowIds := s.rowIds, names := s.names }
+    let i ← entryNode (← fuelOf) b
+    let uid := (← getNode i).uid
+    (dropTrivial r.edges).forM fun e => addRowEdge e (.node uid)
+    appendGroup b r.rowId
+def steps : List Event → M Unit
+  | [] => pure ()
+  | e :: es => do step e; steps es
+end
 
 /-- `add_nodes_to_flow`: emission order -/
 def emit (s : St) : Nat → Nat → List Nat
@@ -667,7 +688,7 @@ structure Out where
 
 /-- the whole compilation of one flow from its event sequence -/
 def compile (noArgs testTypes : List Str) (evs : List Event) : Except Err Out :=
-  match (evs.forM step).run { noArgs := noArgs, testTypes := testTypes } with
+  match (steps evs).run { noArgs := noArgs, testTypes := testTypes } with
   | .error e => .error e
   | .ok (_, s) =>
     if s.stack.length ≠ 1 then .error (.critical "Unexpected end of flow.")
